@@ -19,7 +19,7 @@ inductive Peg where
   | plus (p : Peg)
   | opt (p : Peg)
   | neg (p : Peg)
-  deriving Repr, Inhabited
+  deriving Repr, Inhabited, DecidableEq
 
 inductive Modifier where
   | normal | atomic | silent | compound
@@ -29,7 +29,7 @@ structure Rule where
   name : String
   mod : Modifier
   body : Peg
-  deriving Repr, Inhabited
+  deriving Repr, Inhabited, DecidableEq
 
 structure Grammar where
   rules : List Rule
